@@ -91,6 +91,19 @@ def sym_splitter(B, clsname, case):
     return SObj(cls, attrs)
 
 
+def splitter_shape_ok(A):
+    """the contracts below describe splitters whose fh attribute is already a ForecastingHorizon and whose numeric
+    parameters are ints / None (what the symbolic inputs range over); other shapes are inlined at call sites"""
+    from pyvc.values import is_intlike
+    a = A.self.attrs
+    if not (isinstance(a.get("fh"), SObj) and a["fh"].cls.name == "ForecastingHorizon"):
+        return False
+    for k in ("window_length", "step_length", "initial_window"):
+        if k in a and a[k] is not None and not is_intlike(a[k]):
+            return False
+    return True
+
+
 def valid_params(s):
     a = s.attrs
     c = And(a["window_length"] >= 1, a["step_length"] >= 1)
@@ -154,7 +167,7 @@ for _cls, _kind in (("SlidingWindowSplitter", "sliding"), ("ExpandingWindowSplit
              raises=[("ValueError", ws_rejects)],
              yields_count=ws_count, yields_item=ws_item(_kind),
              invariants={0: lambda S: Eq(S.ycount, ops.simp(Z(S.k) + (1 if S.A.self.attrs["initial_window"] is not None else 0)))},
-             frame=lambda A: [A.self],
+             frame=lambda A: [A.self], applicable=splitter_shape_ok,
              notes=["_split is defined once in BaseWindowSplitter; it is verified once per concrete subclass against that "
                     "subclass's _split_windows contract (dynamic dispatch resolved through the MRO of the real classes)"])
 
@@ -216,7 +229,7 @@ for _cls, _kind in (("SlidingWindowSplitter", "sliding"), ("ExpandingWindowSplit
              raises=[("ValueError", lambda A: ws_rejects(NS(self=A.self, y=yidx(A.y))))],
              yields_count=lambda A: ws_count(NS(self=A.self, y=yidx(A.y))),
              yields_item=(lambda kd: lambda A, k: split_item(kd)(NS(self=A.self, y=yidx(A.y)), k))(_kind),
-             invariants={0: lambda S: Eq(S.ycount, S.k)}, frame=lambda A: [A.self])
+             invariants={0: lambda S: Eq(S.ycount, S.k)}, frame=lambda A: [A.self], applicable=splitter_shape_ok)
 
 
 # ----------------------------------------------------------------------------- get_cutoffs / get_n_splits
@@ -235,12 +248,12 @@ for _cls in ("SlidingWindowSplitter", "ExpandingWindowSplitter"):
              inputs=(lambda cn: lambda B, case: {"self": sym_splitter(B, cn, case), "y": None if case.endswith("None") else sym_y_any(B, case)})(_cls),
              pre=lambda A: valid_params(A.self),
              raises=[("ValueError", lambda A: A.y is None)],
-             returns=ws_cutoffs_spec, frame=lambda A: [A.self])
+             returns=ws_cutoffs_spec, frame=lambda A: [A.self], applicable=splitter_shape_ok)
     contract(f"{SP}::{_cls}.get_n_splits", "C01", cases=[c + "|index" for c in WS_CASES if c != "init|nosww"] + ["noinit|sww|None"],
              inputs=(lambda cn: lambda B, case: {"self": sym_splitter(B, cn, case), "y": None if case.endswith("None") else sym_y_any(B, case)})(_cls),
              pre=lambda A: valid_params(A.self),
              raises=[("ValueError", lambda A: A.y is None)],
-             returns=lambda A: ws_cutoffs_spec(A).len, frame=lambda A: [A.self])
+             returns=lambda A: ws_cutoffs_spec(A).len, frame=lambda A: [A.self], applicable=splitter_shape_ok)
 
 
 # ----------------------------------------------------------------------------- CutoffSplitter
@@ -293,20 +306,20 @@ contract(f"{SP}::CutoffSplitter._split", "C01,C20", cases=CS_CASES,
          pre=lambda A: A.self.attrs["window_length"] >= 1,
          raises=[("ValueError", cs_rejects)],
          yields_count=lambda A: A.self.attrs["cutoffs"].len, yields_item=cs_item(False),
-         invariants={0: lambda S: Eq(S.ycount, S.k)}, frame=lambda A: [A.self])
+         invariants={0: lambda S: Eq(S.ycount, S.k)}, frame=lambda A: [A.self], applicable=splitter_shape_ok)
 contract(f"{SP}::CutoffSplitter.split", "C01,C20", cases=[c + "|" + yk for c in CS_CASES for yk in ("index", "series")],
          inputs=lambda B, case: {"self": sym_cutoff_splitter(B, case), "y": sym_y_any(B, case)},
          pre=lambda A: A.self.attrs["window_length"] >= 1,
          raises=[("ValueError", cs_rejects)],
          yields_count=lambda A: A.self.attrs["cutoffs"].len, yields_item=cs_item(True),
-         invariants={0: lambda S: Eq(S.ycount, S.k)}, frame=lambda A: [A.self])
+         invariants={0: lambda S: Eq(S.ycount, S.k)}, frame=lambda A: [A.self], applicable=splitter_shape_ok)
 contract(f"{SP}::CutoffSplitter.get_cutoffs", "C01", cases=CS_CASES,
          inputs=lambda B, case: {"self": sym_cutoff_splitter(B, case), "y": None},
          raises=[("ValueError", lambda A: Eq(A.self.attrs["cutoffs"].len, 0))],
-         returns=sorted_cutoffs, frame=lambda A: [A.self])
+         returns=sorted_cutoffs, frame=lambda A: [A.self], applicable=splitter_shape_ok)
 contract(f"{SP}::CutoffSplitter.get_n_splits", "C01", cases=CS_CASES,
          inputs=lambda B, case: {"self": sym_cutoff_splitter(B, case), "y": None},
-         returns=lambda A: A.self.attrs["cutoffs"].len, frame=lambda A: [A.self])
+         returns=lambda A: A.self.attrs["cutoffs"].len, frame=lambda A: [A.self], applicable=splitter_shape_ok)
 
 
 # ----------------------------------------------------------------------------- SingleWindowSplitter
@@ -345,15 +358,15 @@ def sw_rejects(A):
 SW_CASES = ["wnone", "wint"]
 contract(f"{SP}::SingleWindowSplitter._split", "C01,C20", cases=SW_CASES,
          inputs=lambda B, case: {"self": sym_single(B, case), "y": sym_y(B)}, pre=sw_pre, raises=[("ValueError", sw_rejects)],
-         yields_count=lambda A: 1, yields_item=sw_item, frame=lambda A: [A.self])
+         yields_count=lambda A: 1, yields_item=sw_item, frame=lambda A: [A.self], applicable=splitter_shape_ok)
 contract(f"{SP}::SingleWindowSplitter.split", "C01,C20", cases=[c + "|" + yk for c in SW_CASES for yk in ("index", "series")],
          inputs=lambda B, case: {"self": sym_single(B, case), "y": sym_y_any(B, case)}, pre=sw_pre, raises=[("ValueError", sw_rejects)],
-         yields_count=lambda A: 1, yields_item=sw_item, invariants={0: lambda S: Eq(S.ycount, S.k)}, frame=lambda A: [A.self])
+         yields_count=lambda A: 1, yields_item=sw_item, invariants={0: lambda S: Eq(S.ycount, S.k)}, frame=lambda A: [A.self], applicable=splitter_shape_ok)
 contract(f"{SP}::SingleWindowSplitter.get_cutoffs", "C01", cases=[c + "|index" for c in SW_CASES] + ["wint|None"],
          inputs=lambda B, case: {"self": sym_single(B, case), "y": None if case.endswith("None") else sym_y_any(B, case)},
          pre=lambda A: True if A.y is None else sw_pre(A),
          raises=[("ValueError", lambda A: A.y is None)],
-         returns=lambda A: Seq(1, lambda i: ops.simp(Z(yidx(A.y).len) - fh_last(A.self.attrs["fh"]) - 1), kind="ndarray"), frame=lambda A: [A.self])
+         returns=lambda A: Seq(1, lambda i: ops.simp(Z(yidx(A.y).len) - fh_last(A.self.attrs["fh"]) - 1), kind="ndarray"), frame=lambda A: [A.self], applicable=splitter_shape_ok)
 contract(f"{SP}::SingleWindowSplitter.get_n_splits", "C01", cases=["wint"],
          inputs=lambda B, case: {"self": sym_single(B, case), "y": None}, returns=lambda A: 1)
 
